@@ -1,11 +1,293 @@
 /-
-  C05 — grammar analysis is exact (placeholder for the theorems; filled in below).
+  C05 — grammar analysis is exact: productions, minimum depths, recursion, reachability.
+
+  Full statement (properties.jsonl): "the minimum depth [the grammar] reports for each symbol
+  equals the depth of the shallowest program derivable from that symbol".  On the code as it
+  stands this is FALSE for grammars with possibly-empty lists of non-terminal elements (an
+  un-annotated `list[T]` may be `[]`, the analysis charges `dist T` for it): see
+  `C05_dist_sound_witness`.  What holds, and is proved here for every grammar, every table and both
+  depth-counting modes:
+
+  * the iteration of `preprocess` never increases a value and, when it stops before its fuel runs
+    out, returns a SOLUTION of the (capped) distance equations (`C05_iter_returns_fixpoint_or_fuel`,
+    `C05_analyse_fixpoint`);
+  * every finite reported distance is ATTAINED by a derivable program (`C05_dist_upper…`): the
+    reported minimum is an upper bound of the true minimum, always;
+  * it is a LOWER bound over the programs without empty lists (`C05_dist_sound_partial`), hence the
+    exact minimum over those (`C05_dist_exact_partial`, `C05_analyse_exact_partial`);
+  * the solution of the equations is unique (`C05_fixpoint_unique`), so the reported distances do
+    not depend on the order in which the loop visits its symbol set.
+
+  Definitions (`GEVerif/Lemmas/Analysis.lean`): `Derives g r ty v` — the language (refinements
+  ignored, lists of any length); `DerivesK g r ty v k` — the same with the derivation cost `k` of
+  the grammar's depth-counting mode (`k = v.depth` when `g.e = 0`); `NoEmptyList v`; `keys d`;
+  `Closed g r d` — the table's keys are closed under `succs`; `AltsRanked r rank` — the production
+  relation is acyclic.
 -/
-import GEVerif.Model.Grammar
+import GEVerif.Lemmas.Analysis
 
 namespace GEVerif.C05
-open GEVerif
+open GEVerif GEVerif.Analysis
 
-theorem C05_placeholder : True := trivial
+/-! ### 4. The iteration computes a solution of the equations -/
+
+/-- One round never increases any value. -/
+theorem C05_step_decreasing (g : GrammarSpec) (r : Reg) (d : DistTable) (s : Sym) :
+    lookupDist (distStep g r d) s ≤ lookupDist d s :=
+  distStep_le g r d s
+
+/-- Neither does the whole loop; the keys are unchanged. -/
+theorem C05_iter_decreasing (g : GrammarSpec) (r : Reg) (fuel : Nat) (d : DistTable) :
+    (∀ s, lookupDist (distIter g r fuel d) s ≤ lookupDist d s) ∧
+    keys (distIter g r fuel d) = keys d :=
+  ⟨distIter_le g r fuel d, keys_distIter g r fuel d⟩
+
+/-- Started from the all-`INF` table, `distIter` either returns a table that a further round
+leaves unchanged AND that solves the capped equations `d s = min INF (rhs d s)`, or it used all
+its fuel: it is then the `fuel`-th iterate and every single round changed the table. -/
+theorem C05_iter_returns_fixpoint_or_fuel (g : GrammarSpec) (r : Reg) (nodes : List Sym)
+    (fuel : Nat) :
+    let d0 : DistTable := nodes.map fun s => (s, INF)
+    let d := distIter g r fuel d0
+    (distStep g r d = d ∧ isFixpoint g r d = true) ∨
+    (d = stepN g r fuel d0 ∧ ∀ k, k < fuel → stepN g r (k + 1) d0 ≠ stepN g r k d0) := by
+  intro d0 d
+  rcases distIter_stable_or_fuel g r fuel d0 with h | h
+  · left
+    exact ⟨h, isFixpoint_of_stable (tableInv_iter fuel (tableInv_init g r nodes)) h⟩
+  · right; exact h
+
+/-- For the tables the loop can reach, "unchanged by a round" and "solves the equations" are the
+same thing. -/
+theorem C05_stable_iff_fixpoint (g : GrammarSpec) (r : Reg) (nodes : List Sym) (fuel : Nat) :
+    let d := distIter g r fuel (nodes.map fun s => (s, INF))
+    distStep g r d = d ↔ isFixpoint g r d = true := by
+  intro d
+  have hinv : TableInv g r d := tableInv_iter fuel (tableInv_init g r nodes)
+  exact ⟨isFixpoint_of_stable hinv, stable_of_isFixpoint (fun p hp => (hinv p hp).1)⟩
+
+/-- The analysed grammar: if the loop stopped because nothing changed, the reported table is a
+solution of the equations. -/
+theorem C05_analyse_fixpoint (g : GrammarSpec) :
+    distStep g (analyse g).reg (analyse g).dist = (analyse g).dist →
+    isFixpoint g (analyse g).reg (analyse g).dist = true :=
+  isFixpoint_of_stable (tableInv_iter _ (tableInv_init g _ _))
+
+/-! ### 2. Soundness (lower bound) — needs "no empty list" -/
+
+/-- Both modes: the reported distance of a type is at most the cost of every derivation of a
+program without empty lists.  `d` only needs `d s ≤ rhs d s` on its keys (any fixpoint does),
+keys closed under successors and covering the symbols of `ty`. -/
+theorem C05_dist_sound_cost_partial {g : GrammarSpec} {r : Reg} {d : DistTable}
+    (hfix : isFixpoint g r d = true) (hcl : Closed g r d)
+    {ty : Ty} (hty : ∀ s ∈ explode ty, s ∈ keys d)
+    {v : Val} {k : Nat} (hd : DerivesK g r ty v k) (hne : NoEmptyList v = true) :
+    distTy g.e d ty ≤ k :=
+  derivesK_sound (preFix_of_isFixpoint hfix) hcl hd hne hty
+
+/-- Node-depth mode (`g.e = 0`): the reported distance is at most the depth of every derivable
+program without empty lists. -/
+theorem C05_dist_sound_partial {g : GrammarSpec} {r : Reg} {d : DistTable}
+    (hfix : isFixpoint g r d = true) (hcl : Closed g r d) (he : g.e = 0)
+    {ty : Ty} (hty : ∀ s ∈ explode ty, s ∈ keys d)
+    {v : Val} (hd : Derives g r ty v) (hne : NoEmptyList v = true) :
+    distTy g.e d ty ≤ v.depth := by
+  obtain ⟨k, hk⟩ := hd.toDerivesK
+  rw [← derivesK_cost_eq_depth he hk]
+  exact C05_dist_sound_cost_partial hfix hcl hty hk hne
+
+/-- The grammar `A ::= Leaf | Many(xs : list[A])` (A abstract). -/
+def witnessSpec : GrammarSpec :=
+  { classes := [⟨"A", true, none, []⟩, ⟨"Leaf", false, some 0, []⟩,
+                ⟨"Many", false, some 0, [("xs", .list (.cls 0))]⟩],
+    start := 0, considered := [1, 2] }
+
+/-- Why `NoEmptyList` cannot be dropped (finding: "empty list makes the reported minimum an upper
+bound").  For `A ::= Leaf | Many(xs : list[A])` the analysis stops on the solution
+`A ↦ 1, Leaf ↦ 1, Many ↦ 2` of the equations, with closed keys; the program `Many([])` is derivable
+from `Many`, has depth 1, and the reported distance of `Many` is 2. -/
+theorem C05_dist_sound_witness :
+    let a := analyse witnessSpec
+    a.dist = [(.cls 0, 1), (.cls 1, 1), (.cls 2, 2)] ∧
+    isFixpoint witnessSpec a.reg a.dist = true ∧ Closed witnessSpec a.reg a.dist ∧
+    witnessSpec.e = 0 ∧
+    Derives witnessSpec a.reg (.cls 2) (.node 2 0 0 [.list 0 0 []]) ∧
+    (Val.node 2 0 0 [.list 0 0 []]).depth = 1 ∧
+    distTy witnessSpec.e a.dist (.cls 2) = 2 ∧
+    NoEmptyList (.node 2 0 0 [.list 0 0 []]) = false := by
+  refine ⟨by decide, by decide, by decide, by decide, ?_, by decide, by decide, by decide⟩
+  exact .node (by decide) (.cons (.list .nil) .nil)
+
+/-! ### 1. Attainment (upper bound) — always -/
+
+/-- Both modes, any solution `d` of the equations, productions acyclic: a type with a finite
+reported distance has a derivable program (without empty lists) whose derivation costs at most
+that distance. -/
+theorem C05_dist_upper_cost {g : GrammarSpec} {r : Reg} {d : DistTable}
+    (hfix : isFixpoint g r d = true) {rank : Nat → Nat} (hr : AltsRanked r rank)
+    {ty : Ty} (hfin : distTy g.e d ty < INF) :
+    ∃ v k, DerivesK g r ty v k ∧ NoEmptyList v = true ∧ k ≤ distTy g.e d ty :=
+  attInv_ty (attInv_of_isFixpoint hfix hr) ty hfin
+
+/-- Node-depth mode: a type with a finite reported distance derives a program at most that deep.
+(No hypothesis on lists: the reported minimum is an upper bound of the true minimum.) -/
+theorem C05_dist_upper {g : GrammarSpec} {r : Reg} {d : DistTable}
+    (hfix : isFixpoint g r d = true) {rank : Nat → Nat} (hr : AltsRanked r rank) (he : g.e = 0)
+    {ty : Ty} (hfin : distTy g.e d ty < INF) :
+    ∃ v, Derives g r ty v ∧ NoEmptyList v = true ∧ v.depth ≤ distTy g.e d ty := by
+  obtain ⟨v, k, h1, h2, h3⟩ := C05_dist_upper_cost hfix hr hfin
+  exact ⟨v, h1.toDerives, h2, by rw [← derivesK_cost_eq_depth he h1]; exact h3⟩
+
+/-- The same for whatever the loop returns when started from the all-`INF` table — no hypothesis
+at all (not even that the loop converged): every finite value ever stored is attained. -/
+theorem C05_dist_upper_iter (g : GrammarSpec) (r : Reg) (nodes : List Sym) (fuel : Nat)
+    {ty : Ty} :
+    let d := distIter g r fuel (nodes.map fun s => (s, INF))
+    distTy g.e d ty < INF →
+    ∃ v k, DerivesK g r ty v k ∧ NoEmptyList v = true ∧ k ≤ distTy g.e d ty ∧
+      (g.e = 0 → Derives g r ty v ∧ v.depth ≤ distTy g.e d ty) := by
+  intro d hfin
+  obtain ⟨v, k, h1, h2, h3⟩ := attInv_ty (attInv_iter fuel (attInv_init g r nodes)) ty hfin
+  exact ⟨v, k, h1, h2, h3, fun he => ⟨h1.toDerives, by rw [← derivesK_cost_eq_depth he h1]; exact h3⟩⟩
+
+/-! ### 3. Exactness over programs without empty lists; uniqueness of the solution -/
+
+/-- Both modes: for a solution of the equations the reported distance of a type is the MINIMUM
+cost of deriving a program without empty lists. -/
+theorem C05_dist_exact_cost_partial {g : GrammarSpec} {r : Reg} {d : DistTable}
+    (hfix : isFixpoint g r d = true) (hcl : Closed g r d)
+    {rank : Nat → Nat} (hr : AltsRanked r rank)
+    {ty : Ty} (hty : ∀ s ∈ explode ty, s ∈ keys d) :
+    (distTy g.e d ty < INF →
+      ∃ v k, DerivesK g r ty v k ∧ NoEmptyList v = true ∧ k = distTy g.e d ty) ∧
+    (∀ v k, DerivesK g r ty v k → NoEmptyList v = true → distTy g.e d ty ≤ k) := by
+  refine ⟨fun hfin => ?_, fun v k hd hne => C05_dist_sound_cost_partial hfix hcl hty hd hne⟩
+  obtain ⟨v, k, h1, h2, h3⟩ := C05_dist_upper_cost hfix hr hfin
+  exact ⟨v, k, h1, h2, Nat.le_antisymm h3 (C05_dist_sound_cost_partial hfix hcl hty h1 h2)⟩
+
+/-- Node-depth mode: the reported distance of a type is the minimum DEPTH of the derivable
+programs without empty lists — attained when finite, a lower bound always. -/
+theorem C05_dist_exact_partial {g : GrammarSpec} {r : Reg} {d : DistTable}
+    (hfix : isFixpoint g r d = true) (hcl : Closed g r d)
+    {rank : Nat → Nat} (hr : AltsRanked r rank) (he : g.e = 0)
+    {ty : Ty} (hty : ∀ s ∈ explode ty, s ∈ keys d) :
+    (distTy g.e d ty < INF →
+      ∃ v, Derives g r ty v ∧ NoEmptyList v = true ∧ v.depth = distTy g.e d ty) ∧
+    (∀ v, Derives g r ty v → NoEmptyList v = true → distTy g.e d ty ≤ v.depth) := by
+  refine ⟨fun hfin => ?_, fun v hd hne => C05_dist_sound_partial hfix hcl he hty hd hne⟩
+  obtain ⟨v, k, h1, h2, h3⟩ := (C05_dist_exact_cost_partial hfix hcl hr hty).1 hfin
+  exact ⟨v, h1.toDerives, h2, by rw [← derivesK_cost_eq_depth he h1]; exact h3⟩
+
+/-- The analysed grammar, both modes, no acyclicity hypothesis: if the loop stopped because
+nothing changed and the registered symbols are closed under successors, every registered symbol's
+reported distance is the minimum derivation cost (= depth when `g.e = 0`) over the programs
+without empty lists. -/
+theorem C05_analyse_exact_partial (g : GrammarSpec)
+    (hst : distStep g (analyse g).reg (analyse g).dist = (analyse g).dist)
+    (hcl : Closed g (analyse g).reg (analyse g).dist)
+    {ty : Ty} (hty : ∀ s ∈ explode ty, s ∈ (analyse g).reg.allNodes) :
+    let a := analyse g
+    (a.distOf ty < INF →
+      ∃ v k, DerivesK g a.reg ty v k ∧ NoEmptyList v = true ∧ k = a.distOf ty ∧
+        (g.e = 0 → Derives g a.reg ty v ∧ v.depth = a.distOf ty)) ∧
+    (∀ v k, DerivesK g a.reg ty v k → NoEmptyList v = true → a.distOf ty ≤ k) ∧
+    (g.e = 0 → ∀ v, Derives g a.reg ty v → NoEmptyList v = true → a.distOf ty ≤ v.depth) := by
+  intro a
+  have hfix : isFixpoint g a.reg a.dist = true := C05_analyse_fixpoint g hst
+  have hkeys : keys a.dist = a.reg.allNodes := by
+    show keys (distIter g _ _ _) = _
+    rw [keys_distIter]; simp only [keys, List.map_map, Function.comp_def, List.map_id']; rfl
+  have hty' : ∀ s ∈ explode ty, s ∈ keys a.dist := by rw [hkeys]; exact hty
+  have hsound : ∀ v k, DerivesK g a.reg ty v k → NoEmptyList v = true → a.distOf ty ≤ k :=
+    fun v k hd hne => C05_dist_sound_cost_partial hfix hcl hty' hd hne
+  refine ⟨fun hfin => ?_, hsound, fun he v hd hne => C05_dist_sound_partial hfix hcl he hty' hd hne⟩
+  obtain ⟨v, k, h1, h2, h3⟩ :=
+    attInv_ty (attInv_iter _ (attInv_init g a.reg a.reg.allNodes)) ty hfin
+  have hk : k = a.distOf ty := Nat.le_antisymm h3 (hsound v k h1 h2)
+  exact ⟨v, k, h1, h2, hk, fun he => ⟨h1.toDerives, by rw [← derivesK_cost_eq_depth he h1]; exact hk⟩⟩
+
+/-- Uniqueness: two solutions of the capped equations with the same (closed) key set agree
+everywhere — so the result cannot depend on the order in which the loop visits the symbols.
+(Every cycle of the equations passes through a concrete class, which adds 1; acyclicity of the
+production relation is what excludes `A ::= A`.) -/
+theorem C05_fixpoint_unique {g : GrammarSpec} {r : Reg} {d d' : DistTable}
+    (hfix : isFixpoint g r d = true) (hfix' : isFixpoint g r d' = true)
+    (hcl : Closed g r d) (hcl' : Closed g r d')
+    {rank : Nat → Nat} (hr : AltsRanked r rank)
+    (hkeys : ∀ s, s ∈ keys d ↔ s ∈ keys d') (s : Sym) :
+    lookupDist d s = lookupDist d' s := by
+  have le_INF : ∀ {d : DistTable}, isFixpoint g r d = true → ∀ s, lookupDist d s ≤ INF := by
+    intro d hf s
+    by_cases hs : s ∈ keys d
+    · rw [eq_rhs_of_isFixpoint hf hs]; exact Nat.min_le_left _ _
+    · rw [lookupDist_not_mem hs]; exact Nat.le_refl _
+  have one : ∀ {d d' : DistTable}, isFixpoint g r d = true → isFixpoint g r d' = true →
+      Closed g r d' → (∀ s, s ∈ keys d → s ∈ keys d') →
+      lookupDist d s < INF → lookupDist d' s ≤ lookupDist d s := by
+    intro d d' hf hf' hc' hk hfin
+    obtain ⟨v, k, h1, h2, h3⟩ := attInv_of_isFixpoint hf hr s hfin
+    have hs' : s ∈ keys d' := hk s (mem_keys_of_lt hfin)
+    have := derivesK_sound (preFix_of_isFixpoint hf') hc' h1 h2
+      (by intro s' hs; cases s <;> simp [Sym.toTy, explode] at hs <;> rw [hs] <;> exact hs')
+    have hd : distTy g.e d' s.toTy = lookupDist d' s := by cases s <;> rfl
+    omega
+  have h1 := le_INF hfix s; have h2 := le_INF hfix' s
+  by_cases hfin : lookupDist d s < INF
+  · have a := one hfix hfix' hcl' (fun s => (hkeys s).1) hfin
+    have b := one hfix' hfix hcl (fun s => (hkeys s).2) (by omega)
+    omega
+  · by_cases hfin' : lookupDist d' s < INF
+    · have b := one hfix' hfix hcl (fun s => (hkeys s).2) hfin'
+      omega
+    · omega
+
+/-! ### Non-vacuity -/
+
+/-- `Expr ::= Lit(v : int) | Add(l : Expr, r : Expr) | Neg(x : Annotated[Expr, …]) |
+Pair(t : tuple[Expr, bool]) | U(u : Union[Lit, Add])`, plus an unreachable class. -/
+def exSpec (expansion : Bool) : GrammarSpec :=
+  { classes := [⟨"Expr", true, none, []⟩,
+                ⟨"Lit", false, some 0, [("v", .int)]⟩,
+                ⟨"Add", false, some 0, [("l", .cls 0), ("r", .cls 0)]⟩,
+                ⟨"Neg", false, some 0, [("x", .ann (.cls 0) (.intRange 0 1))]⟩,
+                ⟨"Pair", false, some 0, [("t", .tuple [.cls 0, .bool])]⟩,
+                ⟨"U", false, some 0, [("u", .union [.cls 1, .cls 2])]⟩,
+                ⟨"Other", false, none, []⟩],
+    start := 0, considered := [1, 2, 3, 4, 5, 6], expansion := expansion }
+
+/-- rank of the classes of `exSpec`: the abstract root above its productions -/
+def exRank : Nat → Nat := fun n => if n = 0 then 1 else 0
+
+example : (analyse (exSpec false)).dist =
+    [(.cls 0, 1), (.cls 1, 1), (.int, 0), (.cls 2, 2), (.cls 3, 2), (.cls 4, 2), (.bool, 0),
+     (.cls 5, 2)] := by decide
+example : (analyse (exSpec true)).dist =
+    [(.cls 0, 3), (.cls 1, 2), (.int, 1), (.cls 2, 4), (.cls 3, 4), (.cls 4, 5), (.bool, 1),
+     (.cls 5, 4)] := by decide
+
+/-- the hypotheses of the exactness theorems hold for the analysed example, in both modes -/
+example : ∀ b : Bool,
+    let a := analyse (exSpec b)
+    distStep (exSpec b) a.reg a.dist = a.dist ∧ isFixpoint (exSpec b) a.reg a.dist = true ∧
+    Closed (exSpec b) a.reg a.dist ∧ (∀ s ∈ explode (.cls 0), s ∈ a.reg.allNodes) ∧
+    a.distOf (.cls 0) < INF := by decide
+
+example : AltsRanked (analyse (exSpec false)).reg exRank := by
+  intro n prods p h hp
+  have hr : (analyse (exSpec false)).reg.alts = [(0, [1, 2, 3, 4, 5])] := by decide
+  rw [hr] at h
+  simp only [getAlts] at h
+  split at h
+  · cases h
+    simp only [List.mem_cons, List.not_mem_nil, or_false] at hp
+    rename_i h0; have : n = 0 := (beq_iff_eq.1 h0).symm
+    rcases hp with rfl | rfl | rfl | rfl | rfl <;> simp [exRank, this]
+  · cases h
+
+/-- a derivable program with an empty-list-free value, and its cost in both modes -/
+example : DerivesK (exSpec true) (analyse (exSpec true)).reg (.cls 0) (.node 1 0 0 [.int 7]) 3 := by
+  have h : DerivesK (exSpec true) (analyse (exSpec true)).reg (.cls 1) (.node 1 0 0 [.int 7])
+      (1 + max (exSpec true).e 0) := .node (by decide) (.cons (.int 7) .nil)
+  exact .abs (n := 0) (p := 1) (prods := [1, 2, 3, 4, 5]) (by decide) (by decide) (by decide) h
 
 end GEVerif.C05
